@@ -86,8 +86,11 @@ def string(value):
         .replace('"', '\\"')
     )
 
-    if value.endswith('\\'):
-        value = value[:-1] + '\\\\'
+    # values keep simple escapes, so an even number of backslashes at the end
+    # is complete (escaped backslashes); only a single one left over would
+    # escape the closing quote
+    if (len(value) - len(value.rstrip('\\'))) % 2:
+        value = value + '\\'
 
     return '"%s"' % value
 
